@@ -92,6 +92,10 @@ fn covered_bytes(b: &Block) -> Vec<(usize, &'static str)> {
     for o in 36..68 {
         v.push((o, "merkle"));
     }
+    // the transaction count decides which transactions there are: a block with another count has other txids under its root
+    for o in 80..80 + compact_size(b.txs.len() as u64).len() {
+        v.push((o, "txcount"));
+    }
     let mut off = 80 + compact_size(b.txs.len() as u64).len();
     for t in &b.txs {
         assert!(!t.segwit);
@@ -232,7 +236,7 @@ pub fn run() -> Report {
             cases.push(Case::Multi { kinds, start: Some(3) });
         }
     }
-    rep.rule = "must pass: genesis,B(k),B(1) for k in 1..17,31,32,33,64,65 (every merkle-tree shape with an odd level up to depth 6) on bitcoin, k in {1,2,3,5} x --start {0,1,2} on all 8 coins, AuxPoW chains, sparse indexes at heights up to 2^40 with --start (pass, and fail with a flipped prev field); must fail at that height: every single-bit flip of prev-hash field, merkle field and tx bytes of every block of 4-block chains with 1/2/3 txs per block, prev-field flips of the first processed block under --start, block swaps, wrong block 0 for 8 coins; all 4^4 combinations of {intact, resealed, prev-field rewritten to the stored predecessor's hash, both} over heights 1..4 (x --start) judged by the statement's rule; every CompactSize inside a transaction re-encoded in a wider form with the same value (the txid covers the bytes); (fail at the first processed height whose prev field is not the indexed hash of the preceding height, else pass); non-trivial = distinct case (pass cases: exit 0 with model-equal output; fail cases: corrupted byte inside the processed range)".into();
+    rep.rule = "must pass: genesis,B(k),B(1) for k in 1..17,31,32,33,64,65 (every merkle-tree shape with an odd level up to depth 6) on bitcoin, k in {1,2,3,5} x --start {0,1,2} on all 8 coins, AuxPoW chains, sparse indexes at heights up to 2^40 with --start (pass, and fail with a flipped prev field); must fail at that height: every single-bit flip of prev-hash field, merkle field, transaction count and tx bytes of every block of 4-block chains with 1/2/3 txs per block, prev-field flips of the first processed block under --start, block swaps, wrong block 0 for 8 coins; all 4^4 combinations of {intact, resealed, prev-field rewritten to the stored predecessor's hash, both} over heights 1..4 (x --start) judged by the statement's rule; every CompactSize inside a transaction re-encoded in a wider form with the same value (the txid covers the bytes); (fail at the first processed height whose prev field is not the indexed hash of the preceding height, else pass); non-trivial = distinct case (pass cases: exit 0 with model-equal output; fail cases: corrupted byte inside the processed range)".into();
     rep.bound = json!({"cases": cases.len(), "flip_chains": "4 blocks x {1,2,3} txs", "flip_density": "every bit", "txs_per_block": if thorough { "1,2,3,4,5,8" } else { "1,2,3" }});
     rep.not_covered = vec!["multi-bit corruptions other than block swaps, re-encodings and the per-block deviation combinations".into(), "witness bytes / marker / flag (not txid-covered; don't-care)".into()];
     let root = refmodel::world::scratch_root();
